@@ -40,6 +40,7 @@ pub struct FnSpec {
     pub rettype: Option<String>,
     pub generics: Option<String>,
     pub no_iter: bool,
+    pub method_map: Vec<(String, String)>, // per-function R-MAP renames (`@fn-method-map a => b`)
     pub opts: BTreeSet<String>,
     pub subst: Vec<(String, String)>, // @lift only: free place expression of the enclosing fn => parameter of the lifted fn
     pub line: usize,
@@ -431,6 +432,9 @@ pub fn parse(text: &str) -> Result<Unit, String> {
                         f.bindarg.push((callee.to_string(), k, idx, parts[2].to_string()));
                     }
                     "refop" => f.refop.extend(a.split_whitespace().map(String::from)),
+                    "fn-method-map" => {
+                        for l in full.lines() { if let Some((x, y)) = l.split_once("=>") { f.method_map.push((x.trim().to_string(), y.trim().to_string())); } }
+                    }
                     "no-canary" => f.no_canary.extend(a.split_whitespace().map(String::from)),
                     "subst" => {
                         let (x, y) = a.split_once("=>").ok_or(format!("line {ln}: @subst PLACE => EXPR"))?;
